@@ -208,6 +208,8 @@ type c01Case struct {
 	honest bool // no fault at all: must succeed
 	remote bool // remote faults only: after the restart against the honest server the lookup must succeed
 	tag    string
+	pre    int  // history: number of honest lookups of OTHER records on the same client instance before the faults are switched on
+	always bool // never dropped by the budget sampling of the oracle
 }
 
 // c01Positions: representative byte offsets of every position class of a lookup response.
@@ -248,15 +250,23 @@ func c01Enumerate(r *Rand, wseed uint64, N, h, id int, emit func(c01Case)) {
 	}
 	head := fmt.Sprintf("client.run w=%d:%d:0:0 h=%d", wseed, N, h)
 	key := "A" + itoa(id)
-	tail := fmt.Sprintf("new=0 look=0:%s look=0:%sm f-= new=0 look=0:%s", key, key, key)
-	mk := func(setup []string, faults []string, cc string) string {
+	tail := fmt.Sprintf("look=0:%s look=0:%sm f-= new=0 look=0:%s", key, key, key)
+	// history: the client instance is created and answers `hist` honestly BEFORE the faults are switched on
+	mkh := func(setup []string, hist []string, faults []string, cc string) string {
 		parts := []string{head}
 		parts = append(parts, setup...)
 		if cc != "" {
 			parts = append(parts, cc)
 		}
+		if len(hist) > 0 {
+			parts = append(parts, "new=0")
+			parts = append(parts, hist...)
+		}
 		for _, f := range faults {
 			parts = append(parts, "f+="+f)
+		}
+		if len(hist) == 0 {
+			parts = append(parts, "new=0")
 		}
 		parts = append(parts, tail)
 		return strings.Join(parts, " ")
@@ -267,28 +277,57 @@ func c01Enumerate(r *Rand, wseed uint64, N, h, id int, emit func(c01Case)) {
 		steps  []string
 		cached bool // the looked-up record is in the warm cache
 		k      int
+		hist   []string // honest lookups on the same client instance before the faults are switched on
 	}
-	setups := []setup{{"cold", nil, false, 0}, {"warm-full", []string{fmt.Sprintf("warm=0:A@%d:*", N)}, true, N}}
+	setups := []setup{{"cold", nil, false, 0, nil}, {"warm-full", []string{fmt.Sprintf("warm=0:A@%d:*", N)}, true, N, nil}}
 	seenK := map[int]bool{}
 	for _, k := range []int{1, id, id + 1, N - 1} {
 		if k >= 1 && k < N && !seenK[k] {
 			seenK[k] = true
-			setups = append(setups, setup{fmt.Sprintf("warm-%d", k), []string{fmt.Sprintf("warm=0:A@%d:*", k)}, id < k, k})
+			setups = append(setups, setup{fmt.Sprintf("warm-%d", k), []string{fmt.Sprintf("warm=0:A@%d:*", k)}, id < k, k, nil})
 		}
 	}
+	// HISTORY setups (class added for the "replay of a verified head" adversary): every other setup presents the faulty
+	// response to a client instance that has not yet verified the head that response carries (cold: nothing stored;
+	// warm-k: the stored head is the smaller A@k; warm-full: the record is cached, no response is fetched).  A client
+	// that remembers what it has verified (a head, a signature, a text) can only go wrong on the SECOND message with
+	// that content, so here the signed head text of the faulty response has been verified by the same instance before:
+	//   cfg-same   the stored head IS the head the server serves (verified when the client initialises), cold cache
+	//   hist-cold  an honest lookup of another record (same served head) on the same instance, then the faults
+	//   hist-warm  the same on top of a partially warm cache (stored head smaller; the honest lookup moves it forward)
+	setups = append(setups, setup{"cfg-same", []string{fmt.Sprintf("cfg=A@%d", N)}, false, 0, nil})
+	if N > 1 {
+		j := (id + 1) % N
+		setups = append(setups, setup{"hist-cold", nil, false, 0, []string{"look=0:A" + itoa(j)}})
+		if N > 2 {
+			j2 := (id + 2) % N
+			k := min(id, j, j2)
+			if k >= 1 {
+				// both records lie beyond the warm part: both lookups go to the network
+				setups = append(setups, setup{"hist-warm", []string{fmt.Sprintf("warm=0:A@%d:*", k)}, false, 0,
+					[]string{"look=0:A" + itoa(j), "look=0:A" + itoa(j2) + "m"}})
+			}
+		}
+	}
+	mk := func(setup []string, faults []string, cc string) string { return mkh(setup, nil, faults, cc) }
 	bits := []int{r.Intn(8)}
 	if thorough {
 		bits = []int{0, 1, 2, 3, 4, 5, 6, 7}
 	}
 	for _, su := range setups {
-		emit(c01Case{line: mk(su.steps, nil, ""), honest: true, remote: true, tag: "honest/" + su.name})
+		pre := len(su.hist)
+		emit(c01Case{line: mkh(su.steps, su.hist, nil, ""), honest: true, remote: true, tag: "honest/" + su.name, pre: pre})
 		// which responses does the honest run read remotely in this cache state?
-		sc, _ := clParseScenario(strings.Fields(mk(su.steps, nil, ""))[1:])
+		sc, _ := clParseScenario(strings.Fields(mkh(su.steps, su.hist, nil, ""))[1:])
 		dry := clRunScenario(sc)
 		var tilePaths []string
 		sawLookup := false
+		faultsFrom := 0 // the faults are active from the first lookup after the history
+		if pre > 0 && len(dry.looks) > pre {
+			faultsFrom = dry.looks[pre].from
+		}
 		for _, ev := range dry.env.trace {
-			if ev.C != 0 || ev.Kind != "rr" || ev.Err != "" {
+			if ev.C != 0 || ev.Kind != "rr" || ev.Err != "" || ev.Seq < faultsFrom {
 				continue
 			}
 			if strings.HasPrefix(ev.File, "/tile/") {
@@ -300,24 +339,45 @@ func c01Enumerate(r *Rand, wseed uint64, N, h, id int, emit func(c01Case)) {
 		// the restart reads again; de-duplicate
 		tilePaths = c01Uniq(tilePaths)
 		single := [][]string{}
+		var tailIdx []int // indexes into single: faults confined to what follows the signed text of the tree note
 		if sawLookup {
 			resp, err := w.A.snap(N).get(lpath)
 			if err != nil {
 				continue
 			}
 			flips, truncs := c01Positions(resp)
+			sigStart := len(resp) // first byte after the signed text of the tree note
+			if _, text, _, ok := clSplitLookup(resp); ok {
+				sigStart = bytes.Index(resp, []byte("\n\n")) + 2 + len(text)
+			}
 			for _, cls := range []string{"id", "text", "blank", "tree", "sigsep", "sig"} {
 				for _, off := range flips[cls] {
 					for _, b := range bits {
+						if off > sigStart { // beyond the blank line that ends the signed text
+							tailIdx = append(tailIdx, len(single))
+						}
 						single = append(single, []string{fmt.Sprintf("L/flip/%d.%d", off, b)})
 					}
 				}
 			}
 			for _, t := range truncs {
+				if t > sigStart {
+					tailIdx = append(tailIdx, len(single))
+				}
 				single = append(single, []string{fmt.Sprintf("L/trunc/%d", t)})
 			}
 			for _, k := range []string{"L/ext/1", "L/ext/64", "L/extsig", "L/notree", "L/negid", "L/plusid", "L/err"} {
+				if strings.HasPrefix(k, "L/ext/") {
+					tailIdx = append(tailIdx, len(single))
+				}
 				single = append(single, []string{k})
+			}
+			// altered tail (clMutateTail): record and signed tree text authentic, the signature block replaced by
+			// attacker bytes, among them go.sum-shaped lines for the very module@version looked up (the clause "returns
+			// EXACTLY the lines of the record" has no other way to fail on an otherwise authentic response)
+			for _, v := range []string{"lines", "lines+sig", "sig+lines", "badsig", "empty"} {
+				tailIdx = append(tailIdx, len(single))
+				single = append(single, []string{"L/tail/" + v})
 			}
 			if N > 1 {
 				o := w.A.recs[(id+1)%N]
@@ -378,14 +438,20 @@ func c01Enumerate(r *Rand, wseed uint64, N, h, id int, emit func(c01Case)) {
 		if len(tilePaths) > 0 {
 			single = append(single, []string{fmt.Sprintf("T*/src/F%d@%d", id, N)}, []string{"T*/err"}, []string{"T*/flip/0.7"})
 		}
-		for _, fs := range single {
-			emit(c01Case{line: mk(su.steps, fs, ""), remote: true, tag: "fault/" + su.name + "/" + c01FaultKind(fs)})
+		// in the history setups one seed-chosen fault of the tail family is exempt from the budget sampling: the
+		// (history x altered tail) cell is evaluated for every (N, h, id) whatever the stride
+		keep := -1
+		if (pre > 0 || su.name == "cfg-same") && len(tailIdx) > 0 {
+			keep = tailIdx[r.Intn(len(tailIdx))]
+		}
+		for i, fs := range single {
+			emit(c01Case{line: mkh(su.steps, su.hist, fs, ""), remote: true, tag: "fault/" + su.name + "/" + c01FaultKind(fs), pre: pre, always: i == keep})
 		}
 		if thorough && len(single) > 1 {
 			// double faults: a sample of pairs
 			for k := 0; k < len(single); k++ {
 				a, b := single[r.Intn(len(single))], single[r.Intn(len(single))]
-				emit(c01Case{line: mk(su.steps, append(append([]string(nil), a...), b...), ""), remote: true, tag: "double/" + su.name})
+				emit(c01Case{line: mkh(su.steps, su.hist, append(append([]string(nil), a...), b...), ""), remote: true, tag: "double/" + su.name, pre: pre})
 			}
 		}
 		// warm-corrupted: each file of the warm cache, several mutations
@@ -401,6 +467,9 @@ func c01Enumerate(r *Rand, wseed uint64, N, h, id int, emit func(c01Case)) {
 					muts = append(muts, fmt.Sprintf("trunc/%d", n-tlog.HashSize), "ext/32")
 				} else {
 					muts = append(muts, "negid", "notree", "extsig")
+					// altered tail in a cache file: after a restart the stored head (same signed text in warm-full) is
+					// verified first, then this file is read — the replay-of-a-verified-head history across a restart
+					muts = append(muts, "tail/lines", "tail/sig+lines", "tail/badsig")
 					// inside the record text (the hashes the caller will trust) and inside the tree note
 					fl, _ := c01Positions(env.caches[0][f])
 					for _, cls := range []string{"text", "tree", "sig"} {
@@ -476,10 +545,18 @@ func c01Judge(g *Gen, c c01Case) {
 		clReport(g, clCheckHonest(out, "C01"), sc)
 		clReport(g, clCheckFetchOnce(out), sc)
 	}
-	if c.remote && len(out.looks) == 3 {
+	// history lookups run before any fault is switched on: honest server, honest cache — they cannot fail
+	for i := 0; i < c.pre && i < len(out.looks); i++ {
+		lk := out.looks[i]
+		want, _ := out.w.honestLines(out.w.A, lk.path, lk.vers)
+		if lk.kind != "ok" || !clSameLines(lk.lines, want) {
+			g.Fail("C01 lookup failed although server and cache are honest", fmt.Sprintf("history lookup %s -> %s %q", lk.key, lk.kind, lk.lines), c.line)
+		}
+	}
+	if c.remote && len(out.looks) == c.pre+3 {
 		// after any sequence of network faults, what the client persisted is authentic: a restart against the honest
 		// server with that cache and configuration cannot fail
-		lk := out.looks[2]
+		lk := out.looks[c.pre+2]
 		want, _ := out.w.honestLines(out.w.A, lk.path, lk.vers)
 		switch {
 		case lk.kind != "ok":
@@ -493,8 +570,8 @@ func c01Judge(g *Gen, c c01Case) {
 		}
 	}
 	// same-client repeat (parCache hit) must agree with the first answer
-	if len(out.looks) >= 2 && out.looks[0].kind != out.looks[1].kind {
-		g.Fail("C01 second lookup of the same record on the same client disagrees with the first", out.looks[0].kind+" vs "+out.looks[1].kind, c.line)
+	if len(out.looks) >= c.pre+2 && out.looks[c.pre].kind != out.looks[c.pre+1].kind {
+		g.Fail("C01 second lookup of the same record on the same client disagrees with the first", out.looks[c.pre].kind+" vs "+out.looks[c.pre+1].kind, c.line)
 	}
 }
 
@@ -533,7 +610,7 @@ func c01Oracle(g *Gen, n int) {
 		}
 		off := g.Intn(stride)
 		for i, c := range cases {
-			if c.honest || i%stride == off {
+			if c.honest || c.always || i%stride == off {
 				c01Judge(g, c)
 			}
 		}
